@@ -100,7 +100,75 @@ def draw_inputs(c, rng, lo=-2, hi=2):
             ps.append(P)
         inp["ps"] = ps                                        # integer numerators ...
         inp["pden"] = int(c.get("pden", 1))                   # ... over this common denominator
+    if c.get("mag", 0):
+        inp["mag"] = draw_mag(op, inp, int(c["mag"]), rng)
+    if c.get("late"):
+        # the valid configuration the wrapper object is built from before its parts are replaced
+        b = {"op": op, "fshapes": c["bfshapes"], "hasw": c["hasw"], "wlen": c["bwlen"], "coreshape": c["bcoreshape"],
+             "pshapes": c["bpshapes"], "lens": [p[0] for p in c["bpshapes"]], "bad": "none", "at": 0}
+        inp["base"] = draw_inputs(b, rng, lo, hi)
+        inp["late_style"] = int(rng.integers(0, 2))
     return inp
+
+
+def draw_mag(op, inp, e, rng):
+    """Which part is scaled by 2^e and which part carries the compensating 2^-e (all integers, for the log).
+    ck: 0 = weight r, 1 = column r of factor k2, 2 = core slice (mode k, index r), 3 = whole core k2 (chain formats)."""
+    n = len(inp["fs"])
+    k = int(rng.integers(n))
+    if op in ("cp", "p2"):
+        r = int(rng.integers(inp["fs"][k].shape[1]))
+        others = [j for j in range(n) if j != k]
+        if inp.get("hasw") and rng.integers(2) == 0:
+            return {"e": e, "k": k, "r": r, "ck": 0, "k2": 0}
+        return {"e": e, "k": k, "r": r, "ck": 1, "k2": int(others[rng.integers(len(others))])}
+    if op == "tucker":
+        return {"e": e, "k": k, "r": int(rng.integers(inp["fs"][k].shape[1])), "ck": 2, "k2": 0}
+    if n == 1:
+        return {"e": 0, "k": 0, "r": 0, "ck": 3, "k2": 0}      # a single core has nothing to compensate with
+    others = [j for j in range(n) if j != k]
+    return {"e": e, "k": k, "r": 0, "ck": 3, "k2": int(others[rng.integers(len(others))])}
+
+
+def apply_mag(op, m, fs, w, core):
+    """Scale the parts in place by exact powers of two (value-preserving for the represented tensor)."""
+    e, k, r = m["e"], m["k"], m["r"]
+    if e == 0:
+        return w, core
+    up, down = np.ldexp(1.0, e), np.ldexp(1.0, -e)
+    if m["ck"] == 3:
+        fs[k] = fs[k] * up
+        fs[m["k2"]] = fs[m["k2"]] * down
+        return w, core
+    fs[k] = fs[k].copy()
+    fs[k][:, r] *= up
+    if m["ck"] == 0:
+        w = w.copy()
+        w[r] *= down
+    elif m["ck"] == 1:
+        fs[m["k2"]] = fs[m["k2"]].copy()
+        fs[m["k2"]][:, r] *= down
+    elif m["ck"] == 2:
+        core = core.copy()
+        idx = [slice(None)] * core.ndim
+        idx[k] = r
+        core[tuple(idx)] *= down
+    return w, core
+
+
+def unscale(a, e):
+    """Measurement normalisation for outputs that are exact copies of scaled integer parts: undo the known power of two."""
+    a = np.asarray(a, dtype=float)
+    if e == 0 or a.size == 0:
+        return a
+    def small_int(x):
+        return bool(np.all(np.isfinite(x)) and np.all(x == np.rint(x)) and np.all(np.abs(x) < 2**20))
+    if small_int(a):
+        return a
+    for f in (np.ldexp(1.0, -e), np.ldexp(1.0, e)):
+        if small_int(a * f):
+            return a * f
+    return a
 
 
 def inputs_json(c, inp):
@@ -117,6 +185,13 @@ def inputs_json(c, inp):
     if "ps" in inp:
         out["ps"] = [jt(p) for p in inp["ps"]]
         out["pden"] = int(inp.get("pden", 1))
+    if "negzero" in inp:
+        out["negzero"] = [int(x) for x in inp["negzero"]]
+    if "mag" in inp:
+        out["mag"] = {k: int(v) for k, v in inp["mag"].items()}
+    if "base" in inp:
+        out["base"] = inputs_json(c, inp["base"])
+        out["late_style"] = int(inp.get("late_style", 0))
     return out
 
 
@@ -136,6 +211,13 @@ def inputs_from_json(c, j):
     if "ps" in j:
         inp["ps"] = [as_float(p["data"]).reshape(p["shape"]) for p in j["ps"]]
         inp["pden"] = int(j.get("pden", 1))
+    if "negzero" in j:
+        inp["negzero"] = list(j["negzero"])
+    if "mag" in j:
+        inp["mag"] = dict(j["mag"])
+    if "base" in j:
+        inp["base"] = inputs_from_json({}, j["base"])
+        inp["late_style"] = int(j.get("late_style", 0))
     return inp
 
 
@@ -151,14 +233,21 @@ def fresh(op, inp):
             fs[k] = v.astype(dt)
         if core is not None:
             core = core / inp["cden"]
+    w = inp["w"].copy() if inp.get("hasw") else None
+    if "negzero" in inp:                   # the zeros of column r of factor k carry a sign bit (-0.0): still exactly zero
+        k, r = inp["negzero"]
+        col = fs[k][:, r]
+        fs[k][:, r] = np.where(col == 0, -0.0, col)
+    if "mag" in inp:
+        w, core = apply_mag(op, inp["mag"], fs, w, core)
     if op == "cp":
-        return (inp["w"].copy() if inp["hasw"] else None, fs)
+        return (w, fs)
     if op == "tucker":
         return (core, fs)
     if op in ("tt", "tr", "ttm"):
         return fs
     if op == "p2":
-        return (inp["w"].copy() if inp["hasw"] else None, fs, [p / float(inp.get("pden", 1)) for p in inp["ps"]])
+        return (w, fs, [p / float(inp.get("pden", 1)) for p in inp["ps"]])
     raise ValueError(op)
 
 
@@ -271,7 +360,68 @@ def out_scale(inp):
     return sc * inp.get("cden", 1)
 
 
-def run_views(op, inp, how, shared=False):
+def late_object(op, inp):
+    """A wrapper built from the valid base configuration whose parts are then ALL replaced, by item / attribute
+    assignment, with the parts of `inp` (valid or not)."""
+    api = _api(op)
+    obj = api["cls"](fresh(op, inp["base"]))
+    new = fresh(op, inp)
+    style = inp.get("late_style", 0)
+    if op in ("cp", "tucker"):
+        a, fs = new
+        if style == 0 or len(fs) != len(obj.factors):
+            obj[0] = a
+            obj[1] = fs
+        else:
+            if op == "cp":
+                obj.weights = a
+            else:
+                obj.core = a
+            for k, f in enumerate(fs):
+                obj.factors[k] = f
+    elif op in ("tt", "tr", "ttm"):
+        if style == 0 and len(new) == len(obj.factors):
+            for k, f in enumerate(new):
+                obj[k] = f
+        else:
+            obj.factors = list(new)
+    elif op == "p2":
+        w, fs, ps = new
+        obj.weights = w
+        if style == 0:
+            obj.factors = fs
+            obj.projections = ps
+        else:
+            obj.factors = list(obj.factors)
+            for k, f in enumerate(fs):
+                obj.factors[k] = f
+            obj.projections = list(ps)
+    return obj
+
+
+def run_late_invalid(op, inp):
+    """Invalid parts assigned to a constructed wrapper: every conversion (method and function) must raise."""
+    r = blank_run(op)
+    accepted = []
+    calls = [("obj.to_tensor", lambda o: o.to_tensor()), ("obj.to_vec", lambda o: o.to_vec()),
+             ("obj.to_unfolded", lambda o: (o.to_unfolded if "to_unfolded" in type(o).__dict__ else o.to_unfolding)(0))]
+    calls += [(n, f) for n, f in conversions(op)]
+    for name, fn in calls:
+        try:
+            obj = late_object(op, inp)
+        except Exception:
+            continue                         # the assignment itself was refused
+        try:
+            fn(obj)
+            accepted.append(name)
+        except Exception:
+            pass
+    r["rejected"] = not accepted
+    r["accepted"] = accepted
+    return r
+
+
+def run_views(op, inp, how, shared=False, objfactory=None):
     """how = "tuple": module-level functions on the tuple/list form; "object": the wrapper class and its methods.
     shared = every conversion is called, in sequence, on ONE tuple / ONE object (otherwise on a fresh copy each)."""
     api = _api(op)
@@ -297,7 +447,10 @@ def run_views(op, inp, how, shared=False):
 
     # 1. validation / construction
     try:
-        if how == "tuple":
+        if objfactory is not None:
+            ft = objfactory()
+            shape, rank = ft.shape, ft.rank          # (stale: logged for information, not obliged)
+        elif how == "tuple":
             ft = fresh(op, inp)
             shape, rank = api["validate"](ft)
         else:
@@ -317,8 +470,10 @@ def run_views(op, inp, how, shared=False):
         def mk():
             if shared:
                 if one[0] is None:
-                    one[0] = api["cls"](fresh(op, inp)) if obj else fresh(op, inp)
+                    one[0] = objfactory() if objfactory else (api["cls"](fresh(op, inp)) if obj else fresh(op, inp))
                 return one[0]
+            if objfactory:
+                return objfactory()
             return api["cls"](fresh(op, inp)) if obj else fresh(op, inp)
         dense = mk().to_tensor() if obj else api["to_tensor"](mk())
         r["dense"] = T(dense)
